@@ -774,6 +774,29 @@ class BasebandSignal(RadioSignal):
             meta=meta,
         )
 
+    # The channel bandwidth of a baseband signal IS its sample rate: assigning
+    # either one keeps the other in step (a stale chan_bw made a frequency
+    # slice, which is rebuilt from the sample rate, relabel its channels).
+    @property
+    def sample_rate(self):
+        """Sample rate of the signal (equal to the channel bandwidth)."""
+        return self._sample_rate
+
+    @sample_rate.setter
+    def sample_rate(self, sample_rate):
+        Signal.sample_rate.fset(self, sample_rate)
+        self._chan_bw = self._sample_rate
+
+    @property
+    def chan_bw(self):
+        """Channel bandwidth (equal to the sample rate)."""
+        return self._chan_bw
+
+    @chan_bw.setter
+    def chan_bw(self, chan_bw):
+        RadioSignal.chan_bw.fset(self, chan_bw)
+        self._sample_rate = self._chan_bw
+
     def to_intensity(self):
         """Absolute square of signal.
 
